@@ -280,6 +280,23 @@ pub fn generate(thorough: bool) -> (String, usize) {
     .unwrap();
     cases.push("case_blockdoc".into());
     n_types += 2;
+    // long member lists: an enum of 14 variants and a struct of 10 fields with long names - their
+    // one-line rendering is far wider than any line width somebody might wrap at
+    {
+        let variants: Vec<String> = (0..14).map(|i| format!("VariantWithALongName{i}")).collect();
+        let fields: Vec<String> = (0..10).map(|i| format!("field_with_a_long_name_{i}")).collect();
+        writeln!(s, "#[derive(zlink_core::introspect::CustomType)]\n#[zlink(crate = \"zlink_core\")]\n#[allow(dead_code)]\npub enum WideEnum {{\n{}\n}}", variants.iter().map(|v| format!("    {v},")).collect::<Vec<_>>().join("\n")).unwrap();
+        writeln!(s, "#[derive(zlink_core::introspect::CustomType)]\n#[zlink(crate = \"zlink_core\")]\n#[allow(dead_code)]\npub struct WideStruct {{\n{}\n}}", fields.iter().enumerate().map(|(i, f)| format!("    pub {f}: {},", if i % 2 == 0 { "String" } else { "u32" })).collect::<Vec<_>>().join("\n")).unwrap();
+        writeln!(
+            s,
+            "pub fn case_wide(sink: &mut Sink<'_>) {{\n    let vars: Vec<RVariant> = vec![{}];\n    check_custom(sink, \"WideEnum\", <WideEnum as CustomType>::CUSTOM_TYPE, &RMember {{ comments: vec![], name: \"WideEnum\".into(), kind: RKind::TypeEnum(vars) }});\n    let fields = vec![{}];\n    check_custom(sink, \"WideStruct\", <WideStruct as CustomType>::CUSTOM_TYPE, &RMember {{ comments: vec![], name: \"WideStruct\".into(), kind: RKind::TypeStruct(fields) }});\n    static TYPES: &[&idl::CustomType<'static>] = &[<WideEnum as CustomType>::CUSTOM_TYPE, <WideStruct as CustomType>::CUSTOM_TYPE];\n    let iface = idl::Interface::new(\"org.c.Wide\", &[], TYPES, &[], &[]);\n    check_interface(sink, \"Wide\", &iface);\n}}",
+            variants.iter().map(|v| format!("RVariant {{ comments: vec![], name: \"{v}\".into() }}")).collect::<Vec<_>>().join(", "),
+            fields.iter().enumerate().map(|(i, f)| format!("RField {{ comments: vec![], name: \"{f}\".into(), ty: {} }}", if i % 2 == 0 { "RType::String" } else { "RType::Int" })).collect::<Vec<_>>().join(", ")
+        )
+        .unwrap();
+        cases.push("case_wide".into());
+        n_types += 2;
+    }
     writeln!(s, "pub const CASES: &[fn(&mut Sink<'_>)] = &[{}];", cases.join(", ")).unwrap();
     writeln!(s, "pub const N_TYPES: usize = {n_types};").unwrap();
     (s, n_types)
